@@ -194,6 +194,11 @@ def harness_for(cfg):
                 E.observe("refused")
                 E.prove(conf, "a window with legal names was refused")
                 E.prove(counts() == before, "refusal changed the map")
+                # ... nor the refused window itself: it is still an ordinary, extensible map
+                try:
+                    sub.add_resource(Res(), name=("zz-after-refusal",), size=1)
+                except ValueError:
+                    E.prove(False, "a refused window was left frozen / changed by the refused call")
         # paths of all_resources() pairwise distinct
         paths = [tuple(p for nm in info.path for p in nm) for info in root.all_resources()]
         for p, q in itertools.combinations(paths, 2):
